@@ -187,7 +187,8 @@ CLAIMED.update({
 CLAIMED.update({
  "C03": dict(category="other",
     text="The marshal / parse half, per message class: for every valid message object m of a class under contract "
-         "(ids in 0..2^53, URIs of the WAMP grammar, every combination of present / absent optional fields) "
+         "(ids in 0..2^53, URIs of the WAMP grammar, every combination of present / absent optional fields, forwarding "
+         "chains of any length) "
          "Cls.parse(m.marshal()) is an instance of the same class with equal values in every field. The real marshal, "
          "parse, constructor, property getters, check_or_raise_extra and _validate_kwargs are inlined from the current "
          "source; the id / URI validators enter through their C08-proved contracts. A counterexample is rebuilt with "
